@@ -23,6 +23,16 @@ def run(ctx):
     rc2, out2, recs2 = c17.go_scaled(ctx, "", "^TestVerifC06$", FILES, "wsrpc", rw, {"internal/transport/zz_verif_scale.go": sf}, 900 if ctx.thorough else 420)
     n = ctx.rewrite_counts["client.go"]
     ctx.oblige(n == [1, 1], "reconnect_loop_sites", "(expected one NewClientTransport call and one time.NewTimer call in client.go, found %s)" % n)
+    # an idle session which goes silent (no error, socket open): the keepalive durations of transport.go scaled as for C17
+    scale = 25
+    rw3 = {"internal/transport/transport.go": [(r"\btime\.Second\b", "vSecond")],
+           "server.go": rw["server.go"], "client.go": rw["client.go"]}
+    rc3, out3, recs3 = c17.go_scaled(ctx, "", "^TestVerifC06Silent$", FILES, "wsrpc", rw3, {"internal/transport/zz_verif_scale.go": c17.scale_file(scale)}, 300, env={"VERIF_SCALE": scale})
+    ctx.extra["time_scale_silent_session"] = scale
+    if rc3 != 0 or not recs3:
+        ctx.fail("harness:C06-silent", "the silent-session harness did not run to completion on this tree: " + out3[-1500:], kind="correspondence", no_input=True)
+        return
+    recs2 = recs2 + recs3
     recs = recs1 + recs2
     ctx.records += recs
     if rc1 != 0 or rc2 != 0 or not recs1 or not recs2:
